@@ -37,7 +37,7 @@ func init() {
 	}
 	plans["C04"] = plan{
 		Level: "fault_enumeration",
-		Parts: []part{{"C", "disk", 30000, 2, 0}, {"C", "enum", 320, 3, 0}},
+		Parts: []part{{"C", "disk", 30000, 2, 0}, {"C", "enum", 320, 3, 0}, {"A", "c04a", 1600, 2, 200}},
 		Rule: "world C with disk faults. Profile disk: 1-3 seeded faults per run (short write with nil error, error after k bytes, ENOSPC/EIO/EDQUOT at create/write/close/unlink/read, " +
 			"kill at an operation or after k bytes of a write, unreadable file), then restarts and a final healthy generation. Profile enum: for each seeded base scenario the " +
 			"fault-free run records the file-system trace; the scenario is then re-run once per fault point: every create/write/close of every chunk file x {kill, error} and for " +
